@@ -20,6 +20,7 @@ import (
 	"sort"
 	"strings"
 	"sync"
+	"sync/atomic"
 	"testing"
 	"time"
 
@@ -69,6 +70,7 @@ type step struct {
 	Res   string   `json:"res"`
 	Prog  *prog    `json:"prog,omitempty"`
 	Args  []string `json:"args"`
+	N     int      `json:"n,omitempty"`     // sleep: milliseconds
 	Steps [][]step `json:"steps,omitempty"` // par: groups run concurrently, each group sequential
 }
 
@@ -141,6 +143,8 @@ func (r *runRec) call(key string, n int) {
 }
 
 var errUser = errors.New("user-error")
+
+var slowCalls int64
 
 // maybeFail implements fault injection at a user-function call site.
 func (r *runRec) maybeFail(nd int, f *fault, shard int) error {
@@ -337,6 +341,9 @@ func build(rid int, p *prog, args []bigslice.Slice) bigslice.Slice {
 						return a
 					}
 					return b
+				}
+				if f == "slowsum" && atomic.AddInt64(&slowCalls, 1)%32 == 0 {
+					time.Sleep(300 * time.Microsecond)
 				}
 				return a + b
 			})
@@ -621,6 +628,8 @@ func (r *runner) doStep(ctx context.Context, st *step, lane int) {
 		r.emit(vtr.Rec{"do": "discard", "res": st.Res, "lane": lane})
 		res.Discard(ctx)
 		r.emit(vtr.Rec{"do": "discard-done", "res": st.Res, "lane": lane})
+	case "sleep":
+		time.Sleep(time.Duration(st.N) * time.Millisecond)
 	case "par":
 		r.emit(vtr.Rec{"do": "parbegin", "lane": lane, "n": len(st.Steps)})
 		var wg sync.WaitGroup
@@ -728,6 +737,19 @@ func TestVerifProg(t *testing.T) {
 	}
 	var scs []*scenario
 	vtr.ReadJSON(path, &scs)
+	// process-wide internal size parameters (C04): the whole batch of scenarios runs under them
+	if v := vtr.EnvInt("VERIF_CHUNK", 0); v > 0 {
+		defaultsize.Chunk = v
+	}
+	if v := vtr.EnvInt("VERIF_CANARY", 0); v > 0 {
+		defaultsize.SortCanary = v
+	}
+	if v := vtr.EnvInt("VERIF_SPILLBATCH", 0); v > 0 {
+		sliceio.SpillBatchSize = v
+	}
+	if vtr.EnvInt("VERIF_NOSHUFFLEREADERS", 0) > 0 {
+		exec.DoShuffleReaders = false
+	}
 	w := vtr.Create("prog_records.ndjson")
 	defer w.Close()
 	workers := vtr.EnvInt("VERIF_WORKERS", 4)
